@@ -74,6 +74,7 @@ var preludeParts = []preludePart{
 	{"tq_seq1 ", `(declare-fun tq_seq1 (Int) tq_Seq)`},
 	{"tq_be32 ", `(declare-fun tq_be32 (Int) tq_Seq)`},
 	{"tq_seqof ", `(declare-fun tq_seqof ((Array Int Int) Int Int) tq_Seq)`},
+	{"tq_padblock ", `(declare-fun tq_padblock (tq_Seq Int) tq_Seq)`},
 }
 
 // axioms that relate several of the above (added when all triggers occur)
@@ -89,6 +90,8 @@ var preludeJoint = []struct {
      :pattern ((tq_sumlen a o k)))))`},
 	{[]string{"tq_spliceS ", "tq_okS "}, `(assert (forall ((d (Array Int tq_Str)) (o Int) (s (Array Int tq_Str)) (so Int) (n Int))
   (! (=> (and (tq_okS d) (tq_okS s)) (tq_okS (tq_spliceS d o s so n))) :pattern ((tq_okS (tq_spliceS d o s so n))))))`},
+	{[]string{"tq_padblock "}, `(assert (forall ((b tq_Seq)) (! (= (tq_padblock b 0) (tq_md5 b)) :pattern ((tq_padblock b 0)))))
+(assert (forall ((b tq_Seq) (k Int)) (! (=> (> k 0) (= (tq_padblock b k) (tq_md5 (tq_cat b (tq_padblock b (- k 1)))))) :pattern ((tq_padblock b k)))))`},
 	{[]string{"tq_seqof ", "tq_eps"}, `(assert (forall ((a (Array Int Int)) (o Int)) (! (= (tq_seqof a o 0) tq_eps) :pattern ((tq_seqof a o 0)))))`},
 	{[]string{"tq_cat ", "tq_eps"}, `(assert (forall ((s tq_Seq)) (! (= (tq_cat s tq_eps) s) :pattern ((tq_cat s tq_eps)))))`},
 	{[]string{"tq_seqof ", "tq_seq1 "}, `(assert (forall ((a (Array Int Int)) (o Int)) (! (= (tq_seqof a o 1) (tq_seq1 (select a o))) :pattern ((tq_seqof a o 1)))))`},
@@ -168,19 +171,44 @@ func (e *Engine) smtText(hyps []*Term, goal *Term, produceModel bool) string {
 	out.WriteString("(set-logic ALL)\n")
 	out.WriteString("(declare-datatype tq_Str ((tq_mkstr (tq_sarr (Array Int Int)) (tq_soff Int) (tq_slen Int))))\n")
 	out.WriteString("(declare-sort tq_Ref 0)\n(declare-sort tq_Seq 0)\n")
-	for _, p := range preludeParts {
-		if strings.Contains(bs, p.trigger) {
+	// prelude parts are included when their trigger occurs in the query or in an
+	// already included part (fixpoint)
+	incl := make([]bool, len(preludeParts))
+	inclJ := make([]bool, len(preludeJoint))
+	scan := bs
+	for changed := true; changed; {
+		changed = false
+		for i, p := range preludeParts {
+			if !incl[i] && strings.Contains(scan, p.trigger) {
+				incl[i] = true
+				scan += p.text + "\n"
+				changed = true
+			}
+		}
+		for i, j := range preludeJoint {
+			if inclJ[i] {
+				continue
+			}
+			ok := true
+			for _, t := range j.triggers {
+				if !strings.Contains(scan, t) {
+					ok = false
+				}
+			}
+			if ok {
+				inclJ[i] = true
+				scan += j.text + "\n"
+				changed = true
+			}
+		}
+	}
+	for i, p := range preludeParts {
+		if incl[i] {
 			out.WriteString(p.text + "\n")
 		}
 	}
-	for _, j := range preludeJoint {
-		ok := true
-		for _, t := range j.triggers {
-			if !strings.Contains(bs, t) {
-				ok = false
-			}
-		}
-		if ok {
+	for i, j := range preludeJoint {
+		if inclJ[i] {
 			out.WriteString(j.text + "\n")
 		}
 	}
